@@ -93,6 +93,8 @@ class Ctx:
         self.configs = load_json(os.path.join(ROOT, 'configs.json'))
         self.units = {}
         for p in sorted(glob.glob(os.path.join(ROOT, 'units', '*.json'))):
+            if os.path.basename(p) == 'expected_counts.json':
+                continue
             for u in load_json(p):
                 u['_file'] = p
                 self.units[u['unit']] = u
@@ -247,7 +249,8 @@ def extract_inputs(jtxt):
 # -------------------------------------------------------------------- one obligation
 def run_obligation(ctx, unit, ob, cfg, tier, canary=False, want_trace=False, cover=False):
     """returns dict(status = proved|failed|undecided, ...)"""
-    res = {'unit': unit['unit'], 'ob': ob['id'], 'config': cfg, 'class': ob.get('class', 'U'),
+    res = {'unit': unit['unit'], 'ob': ob['id'], 'config': cfg,
+           'class': 'B' if cfg in ob.get('bounded_configs', unit.get('bounded_configs', ())) else ob.get('class', 'U'),
            'mode': ob.get('mode', 'plain'), 'canary': canary, 'is_cover': cover, 'cmds': []}
     d = ctx.unit_dir(unit, cfg)
     tag = ob['id'] + ('.canary' if canary else '') + ('.cover' if cover else '')
@@ -256,7 +259,7 @@ def run_obligation(ctx, unit, ob, cfg, tier, canary=False, want_trace=False, cov
     budget = ob.get('timeout', 120) * (5 if tier == 'thorough' else 1)
     t0 = time.time()
     a = os.path.join(d, tag + '.a.gb')
-    defs = ['-DVERIF_CBMC=1', '-DCFG_' + cfg + '=1'] + ['-D' + x for x in ob.get('defines', ())]
+    defs = ['-DVERIF_CBMC=1', '-DCFG_' + cfg + '=1'] + ctx.configs[cfg] + ['-D' + x for x in ob.get('defines', ())]
     if canary:
         defs.append('-D%s=1' % ob['canary'])
     if cover:
@@ -361,7 +364,7 @@ def native_build(ctx, unit, ob, cfg):
     d = ctx.unit_dir(unit, cfg)
     exe = os.path.join(d, ob['id'] + '.native')
     spec = os.path.join(ROOT, unit['spec'])
-    defs = ['-DVERIF_NATIVE=1', '-DCFG_' + cfg + '=1'] + ['-D' + x for x in ob.get('defines', ())]
+    defs = ['-DVERIF_NATIVE=1', '-DCFG_' + cfg + '=1'] + ctx.configs[cfg] + ['-D' + x for x in ob.get('defines', ())]
     o1 = os.path.join(d, ob['id'] + '.spec.o')
     o2 = os.path.join(d, 'shim.o')
     o3 = os.path.join(d, 'native_rt.o')
@@ -507,7 +510,7 @@ def run_property(prop, tier, seed, jobs_n):
             else:
                 (canaries if is_canary else results).append(r)
     # expected obligation counts (vacuity guard i)
-    exp_path = os.path.join(ROOT, 'units', 'expected_counts.json')
+    exp_path = os.path.join(ROOT, 'expected_counts.json')
     expected = load_json(exp_path) if os.path.exists(exp_path) else {}
     if os.environ.get('VERIF_RECORD_COUNTS'):
         for r in results:
